@@ -256,6 +256,8 @@ pub enum Item {
     Blob(usize),
     Enum(usize),
     Global { b: BId, init: Expr },
+    /// verbatim top-level text (one definition); ignored by the reference model
+    Raw(String),
 }
 
 #[derive(Clone, Debug, Default)]
